@@ -235,6 +235,7 @@ def main():
         paths += r["paths"]; reached_total += r["reached"]
         smt_n += r["smt_queries"]; smt_t += r["smt_time_s"]
         ph["paths"] += r["paths"]; ph["reached"] += r["reached"]
+        ph["max_part_wall_s"] = max(ph.get("max_part_wall_s", 0), r.get("wall_s", 0))
         stubs.update(r.get("stubs", []))
         states = [m["state"] for m in r["messages"]]
         if r["error"]:
